@@ -18,6 +18,8 @@ def Node.isInst (nd : Node) : Bool := match nd.kind with | .instantiation _ => t
 def Node.isAlias (nd : Node) : Bool := match nd.kind with | .alias => true | _ => false
 def Node.isDef (nd : Node) : Bool := match nd.kind with | .definition _ => true | _ => false
 def Node.sat (nd : Node) : List Nat := match nd.kind with | .instantiation s => s | _ => []
+/-- the type a definition node defines -/
+def Node.defTy (nd : Node) : Option Ty := match nd.kind with | .definition ty => some ty | _ => none
 
 def EdgeKind.isArg : EdgeKind → Bool | .arg _ => true | _ => false
 def EdgeKind.isAlias : EdgeKind → Bool | .alias _ => true | _ => false
@@ -38,7 +40,8 @@ def EdgeOk (ctx : Ctx) (g : Graph) (e : Edge) : Prop :=
     | .arg i =>
       i ∈ d.sat ∧ d.isInst = true ∧
       ∃ pid ∈ d.pkg, ∃ pd ∈ (g.pkgOf pid).toOption, i < pd.imports.length
-    | .dep => s.isDef = true ∧ d.isDef = true
+    -- from a definition to a definition built from it (types are numbered children first)
+    | .dep => ∃ ts ∈ s.defTy, ∃ td ∈ d.defTy, ts < td
 
 /-- the key (target, argument index) of an argument edge -/
 def Edge.argKey (e : Edge) : Option (Nat × Nat) :=
@@ -144,6 +147,28 @@ def invReport (ctx : Ctx) (g : Graph) : List String :=
   c (decide g.freeNodes.Nodup) "freeNodesNodup" ++
   c (decide (∀ i ∈ g.freeNodes, i < g.nodes.length ∧ g.node? i = none)) "freeNodesVacant" ++
   c (decide (∀ i ∈ List.range g.nodes.length, g.node? i = none → i ∈ g.freeNodes)) "vacantFree"
+
+/-! ### the static universe: kinds and types are finite trees
+
+  The harness numbers kinds and types children first, so "finite tree" reads "a component has a
+  smaller number".  Both are assumptions of `no_panic_live` / `inv_step` on the universe (they
+  hold of every real `Types` arena, where an item is allocated after its components); the
+  driver checks them on the universe of each case (`kindWFUpTo`, `tyWFUpTo`). -/
+
+/-- the export kinds of an instance kind are smaller kinds -/
+def KindWF (ctx : Ctx) : Prop := ∀ k exps, ctx.kindExports k = some exps → ∀ p ∈ exps, p.2 < k
+
+/-- the defined types visited from a type are the type itself or smaller types -/
+def TyWF (ctx : Ctx) : Prop := ∀ t, ∀ u ∈ ctx.tyVisits t, u ≤ t
+
+def kindWFUpTo (ctx : Ctx) (n : Nat) : Bool :=
+  (List.range n).all fun k =>
+    match ctx.kindExports k with
+    | some exps => exps.all fun p => decide (p.2 < k)
+    | none => true
+
+def tyWFUpTo (ctx : Ctx) (n : Nat) : Bool :=
+  (List.range n).all fun t => (ctx.tyVisits t).all fun u => decide (u ≤ t)
 
 /-! ### live identifiers -/
 
